@@ -10,7 +10,7 @@ from common.framework import Failure, ImplError, Stream
 
 ID = 'C14'
 LEAN_MODULES = ['Proofs.C14']
-REQUIRED = []
+REQUIRED = ['C14.cycleStat_spec', 'C14.cycle_samples_exact', 'C14.getCycleStat_cycles', 'C14.project_spec', 'C14.getCycleStat_samples', 'C14.linInterp_affine', 'C14.alignCycle_affine', 'C14.phaseAlign_affine', 'C14.digitize_spec', 'C14.binByPhase_spec']
 TRUSTED = ['bin centres / edges are taken from the real emd.spectra.define_hist_bins on the same run and handed to the model as data',
            'default cycles of phase_align are taken from the real get_cycle_vector(ip, return_good=False) (property C12) and handed to the model',
            'float results are compared with the exact rational model within 1e-9*max(1, |input|_inf); non-finite floats (NaN, inf) are one class']
